@@ -936,6 +936,14 @@ func headerHelpers(c *core.Ctx) {
 						args = elts
 					}
 				}
+				// fields[i] of a local table of field addresses walked by an index loop: every entry in turn
+				if ix, isIx := ast.Unparen(call.Args[2]).(*ast.IndexExpr); isIx {
+					if lit := literalOf(ix.X); lit != nil {
+						if _, isArr := pkg.TypesInfo.TypeOf(lit).Underlying().(*types.Array); isArr {
+							args = lit.Elts
+						}
+					}
+				}
 				for _, a := range args {
 					arg := ast.Unparen(a)
 					if u, isU := arg.(*ast.UnaryExpr); isU && u.Op == token.AND {
